@@ -348,6 +348,107 @@ Section QiFacts.
     destruct (own_loop false (p :: ins)); reflexivity.
   Qed.
 
+  (* the loop accepts EXACTLY when every input (each one, at its own position) is owned *)
+  Lemma own_loop_complete : forall cs ins, Forall (owned cs) ins -> own_loop cs ins = QOk.
+  Proof.
+    intros cs. induction ins as [|[pk e] rest IH]; intros Hf; [reflexivity|].
+    inversion Hf as [|x l Ho Hr]; subst. destruct Ho as (ea & He & Heq & Hsc & Hp).
+    cbn [fst snd] in He, Heq, Hsc, Hp. subst e. cbn [C03.own_loop].
+    rewrite Hsc, Heq. cbn [negb].
+    destruct cs; cbn [andb].
+    - rewrite (Hp eq_refl). cbn [negb]. apply IH. exact Hr.
+    - apply IH. exact Hr.
+  Qed.
+
+  Lemma own_loop_iff : forall cs ins, own_loop cs ins = QOk <-> Forall (owned cs) ins.
+  Proof. intros cs ins. split; [apply own_loop_ok|apply own_loop_complete]. Qed.
+
+  Lemma authorised_iff : forall chain cs f ins sg,
+    qi_authorised chain cs f ins sg = QOk <->
+    (ins <> [] /\ qi_chain f = chain /\ Forall (owned cs) ins
+     /\ (cs = true -> exists k, final_key (map fst ins) = Some k
+                               /\ verify k (H (qi_signing_bytes f)) sg = true)).
+  Proof.
+    intros chain cs f ins sg. split; [apply authorised_ok|].
+    intros (Hne & Hc & Hf & Hs). unfold C03.qi_authorised.
+    destruct ins as [|i0 rest]; [contradiction Hne; reflexivity|].
+    rewrite Hc, N.eqb_refl. cbn [negb].
+    rewrite (own_loop_complete cs (i0 :: rest) Hf).
+    destruct cs; [|reflexivity].
+    destruct (Hs eq_refl) as (k & Hk & Hv). rewrite Hk, Hv. reflexivity.
+  Qed.
+
+  (* one input, anywhere in the list, whose entry is missing or is not owned by the key the input
+     carries: refused - whatever the other inputs are *)
+  Lemma foreign_input_refused : forall chain cs f pre pk e post sg,
+    (forall ea, e = Some ea -> addr_eqb (addr_of_pub pk) ea = false) ->
+    qi_authorised chain cs f (pre ++ (pk, e) :: post) sg <> QOk.
+  Proof.
+    intros chain cs f pre pk e post sg Hfor Ha.
+    apply authorised_ok in Ha. destruct Ha as (_ & _ & Hf & _).
+    rewrite Forall_forall in Hf.
+    destruct (Hf (pk, e)) as (ea & He & Heq & _); [apply in_or_app; right; left; reflexivity|].
+    cbn [fst snd] in He, Heq. rewrite (Hfor ea He) in Heq. discriminate.
+  Qed.
+
+  (* ---- with the lookup explicit: every input against the entry under ITS OWN outpoint ---- *)
+  Variable outpoint : Type.
+  Notation qi_process := (qi_process hash pub addr sig H addr_of_pub addr_eqb in_qi_scope parse_ok agg verify outpoint).
+
+  Definition spent_by_owner (utxo : outpoint -> option addr) (cs : bool) (i : outpoint * pub) : Prop :=
+    exists ea, utxo (fst i) = Some ea /\ addr_eqb (addr_of_pub (snd i)) ea = true
+               /\ in_qi_scope (addr_of_pub (snd i)) = true /\ (cs = true -> parse_ok (snd i) = true).
+
+  Lemma lookup_owned : forall utxo cs oins,
+    Forall (owned cs) (qi_lookup pub addr outpoint utxo oins) <-> Forall (spent_by_owner utxo cs) oins.
+  Proof.
+    intros utxo cs oins. unfold C03.qi_lookup. rewrite Forall_map.
+    split; intros Hf; eapply Forall_impl; try exact Hf; intros [op pk] Ho; exact Ho.
+  Qed.
+
+  Lemma process_iff : forall utxo chain cs f oins sg,
+    qi_process utxo chain cs f oins sg = QOk <->
+    (oins <> [] /\ qi_chain f = chain /\ Forall (spent_by_owner utxo cs) oins
+     /\ (cs = true -> exists k, final_key (map snd oins) = Some k
+                               /\ verify k (H (qi_signing_bytes f)) sg = true)).
+  Proof.
+    intros utxo chain cs f oins sg. unfold C03.qi_process. rewrite authorised_iff, lookup_owned.
+    assert (Hm : map fst (qi_lookup pub addr outpoint utxo oins) = map snd oins).
+    { unfold C03.qi_lookup. rewrite map_map. reflexivity. }
+    rewrite Hm.
+    assert (Hn : qi_lookup pub addr outpoint utxo oins <> [] <-> oins <> []).
+    { unfold C03.qi_lookup. destruct oins as [|o l]; cbn [map]; [tauto|]. split; intros _ Hy; discriminate Hy. }
+    rewrite Hn. reflexivity.
+  Qed.
+
+  Lemma process_every_input : forall utxo chain cs f oins sg,
+    qi_process utxo chain cs f oins sg = QOk ->
+    forall n op pk, nth_error oins n = Some (op, pk) -> spent_by_owner utxo cs (op, pk).
+  Proof.
+    intros utxo chain cs f oins sg Ha n op pk Hn.
+    apply process_iff in Ha. destruct Ha as (_ & _ & Hf & _).
+    rewrite Forall_forall in Hf. apply Hf. eapply nth_error_In. exact Hn.
+  Qed.
+
+  (* the seeded shape: a key that legitimately spends one entry is repeated on an input consuming an
+     entry it does not own (or no entry): refused on both paths, at any positions *)
+  Lemma process_key_reuse_refused : forall utxo chain cs f pre op0 mid op pk post sg,
+    spent_by_owner utxo cs (op0, pk) ->
+    (forall ea, utxo op = Some ea -> addr_eqb (addr_of_pub pk) ea = false) ->
+    qi_process utxo chain cs f (pre ++ (op0, pk) :: mid ++ (op, pk) :: post) sg <> QOk
+    /\ qi_process utxo chain cs f (pre ++ (op, pk) :: mid ++ (op0, pk) :: post) sg <> QOk.
+  Proof.
+    intros utxo chain cs f pre op0 mid op pk post sg _ Hfor.
+    split; intros Ha; apply process_iff in Ha; destruct Ha as (_ & _ & Hf & _);
+      rewrite Forall_forall in Hf.
+    - destruct (Hf (op, pk)) as (ea & He & Heq & _).
+      { apply in_or_app; right; right. apply in_or_app; right; left; reflexivity. }
+      cbn [fst snd] in He, Heq. rewrite (Hfor ea He) in Heq. discriminate.
+    - destruct (Hf (op, pk)) as (ea & He & Heq & _).
+      { apply in_or_app; right; left; reflexivity. }
+      cbn [fst snd] in He, Heq. rewrite (Hfor ea He) in Heq. discriminate.
+  Qed.
+
   Definition schnorr_reuse : Prop :=
     exists b1 b2 k sg, b1 <> b2 /\ verify k (H b1) sg = true /\ verify k (H b2) sg = true.
 
@@ -366,3 +467,43 @@ Section QiFacts.
     - right. exists (qi_signing_bytes f1), (qi_signing_bytes f2), k1, sg. repeat split; assumption.
   Qed.
 End QiFacts.
+
+(* ---- NOT the code: the weaker loop that tests ownership once per DISTINCT carried key (the
+   "already checked this key" shortcut).  Kept only to state that it is not equivalent: it accepts
+   a spend whose second input consumes somebody else's entry. ---- *)
+Section QiDedup.
+  Variables pub addr : Type.
+  Variable addr_of_pub : pub -> addr.
+  Variable addr_eqb : addr -> addr -> bool.
+  Variable in_qi_scope : addr -> bool.
+  Variable parse_ok : pub -> bool.
+  Variable pub_eqb : pub -> pub -> bool.
+
+  Fixpoint own_loop_per_key (check_sig : bool) (seen : list pub) (ins : list (pub * option addr))
+    : qverdict :=
+    match ins with
+    | [] => QOk
+    | (pk, e) :: rest =>
+        match e with
+        | None => QMissing
+        | Some ea =>
+            if existsb (pub_eqb pk) seen then
+              if check_sig && negb (parse_ok pk) then QParse
+              else own_loop_per_key check_sig seen rest
+            else
+              let a := addr_of_pub pk in
+              if negb (in_qi_scope a) then QScope
+              else if negb (addr_eqb a ea) then QOwner
+              else if check_sig && negb (parse_ok pk) then QParse
+              else own_loop_per_key check_sig (pk :: seen) rest
+        end
+    end.
+End QiDedup.
+
+Lemma per_key_loop_differs :
+  exists ins : list (N * option N),
+    own_loop_per_key N N (fun p => p) N.eqb (fun _ => true) (fun _ => true) N.eqb true [] ins = QOk
+    /\ own_loop N N (fun p => p) N.eqb (fun _ => true) (fun _ => true) true ins = QOwner
+    /\ own_loop_per_key N N (fun p => p) N.eqb (fun _ => true) (fun _ => true) N.eqb false [] ins = QOk
+    /\ own_loop N N (fun p => p) N.eqb (fun _ => true) (fun _ => true) false ins = QOwner.
+Proof. exists [(1%N, Some 1%N); (1%N, Some 2%N)]. vm_compute. repeat split. Qed.
